@@ -1,409 +1,18 @@
 /-
 C07 — one pair of a general comparison (no compatibility mode): the code's isinstance dispatch +
 Python operator against XPath 3.1 §3.7.2 (untypedAtomic conversion) + §3.7.1, pair by pair.
+The 17 x 17 case analysis is split by the type of the left operand over CompareGeneral{GN,GU,G1,G2,G3,G4}.lean.
 -/
-import EPV.Lemmas.CompareValue
+import EPV.Lemmas.CompareGeneralGN
+import EPV.Lemmas.CompareGeneralGU
+import EPV.Lemmas.CompareGeneralG1
+import EPV.Lemmas.CompareGeneralG2
+import EPV.Lemmas.CompareGeneralG3
+import EPV.Lemmas.CompareGeneralG4
 set_option linter.unusedSimpArgs false
 namespace EPV.Cmp
 open EPV.CmpSpec EPV.CmpFind
 
-macro "gp_simp" : tactic => `(tactic|
-  simp [pairGeneral, iterCheck, iterMatch, categoryOK, cmpCategory, kindName, pairSpec, castThen, castUntyped, valueOp, isBoolA, isStrLike3, isStr, isQN, isUri, isInteger,
-     Atom.isDur, numRank, castNum, pyOp, pyBinop, subclassFirst, dunder, Atom.pyNum, numCmp, liftPy, dCmp_eq_six, isEqNe, isUA,
-     sCmp, iCmp, bCmp, cmpBy_eq_six, Atom.isDT, Atom.isBin, Atom.dt, Atom.binVal, Atom.durVal, durInstanceOf,
-     binOrdered, strLtS, strEqS, octLt, D.isNaN, Op.isOrd])
-
-theorem six_swap_str (op : Op) (s t : Str) :
-    six strLt (fun x y => decide (x = y)) op.swap t s = six strLt (fun x y => decide (x = y)) op s t := by
-  cases op <;> simp [six, Op.swap] <;> grind
-
-theorem strLt_eq : strLt = strLtS := rfl
-
-/-- untypedAtomic (left) against integer / double -/
-theorem pg_ua_num (m : Mode) (op : Op) (s : Str) (b : Atom) (y : D)
-    (hb : (∃ v : Int, b = .int v ∧ y = .fin v ∧ toD64 v = .fin v) ∨ b = .dbl y ∨ (∃ q : Rat, b = .dec q) ∨ b = .flt y)
-    (h5 : pairSpec m op (.ua s) b ≠ .error .unsupported) :
-    pairGeneral m op (.ua s) b = pairSpec m op (.ua s) b := by
-  rcases hb with ⟨v, rfl, rfl, hv⟩ | rfl | ⟨q, rfl⟩ | rfl
-  · revert h5
-    gp_simp
-    simp only [strToDouble, castDouble]
-    cases lexNum s <;> simp [Except.map, valueOp, numRank, castNum, hv]
-  · revert h5
-    gp_simp
-    simp only [strToDouble, castDouble]
-    cases lexNum s <;> simp [Except.map, valueOp, numRank, castNum]
-  · revert h5
-    gp_simp
-    simp only [strToDouble, castDouble]
-    cases lexNum s <;> simp [Except.map, valueOp, numRank, castNum]
-  · revert h5
-    gp_simp
-    simp only [strToDouble, castDouble]
-    cases lexNum s <;> simp [Except.map, valueOp, numRank, castNum]
-
-/-- integer / double (left) against untypedAtomic: the reflected method of UntypedAtomic answers -/
-theorem pg_num_ua (m : Mode) (op : Op) (s : Str) (a : Atom) (x : D)
-    (ha : (∃ v : Int, a = .int v ∧ x = .fin v ∧ toD64 v = .fin v) ∨ a = .dbl x ∨ (∃ q : Rat, a = .dec q) ∨ a = .flt x)
-    (h5 : pairSpec m op a (.ua s) ≠ .error .unsupported) :
-    pairGeneral m op a (.ua s) = pairSpec m op a (.ua s) := by
-  rcases ha with ⟨v, rfl, rfl, hv⟩ | rfl | ⟨q, rfl⟩ | rfl
-  · revert h5
-    gp_simp
-    simp only [strToDouble, castDouble]
-    cases lexNum s <;> simp [Except.map, valueOp, numRank, castNum, hv, six_swap]
-  · revert h5
-    gp_simp
-    simp only [strToDouble, castDouble]
-    cases lexNum s <;> simp [Except.map, valueOp, numRank, castNum, six_swap]
-  · revert h5
-    gp_simp
-    simp only [strToDouble, castDouble]
-    cases lexNum s <;> simp [Except.map, valueOp, numRank, castNum, six_swap]
-  · revert h5
-    gp_simp
-    simp only [strToDouble, castDouble]
-    cases lexNum s <;> simp [Except.map, valueOp, numRank, castNum, six_swap]
-
-/-- string-like pairs (xs:string, xs:anyURI, xs:untypedAtomic against a string) -/
-theorem pg_str_str (m : Mode) (op : Op) (s t : Str) :
-    pairGeneral m op (.str s) (.str t) = pairSpec m op (.str s) (.str t) ∧
-    pairGeneral m op (.str s) (.uri t) = pairSpec m op (.str s) (.uri t) ∧
-    pairGeneral m op (.uri s) (.str t) = pairSpec m op (.uri s) (.str t) ∧
-    pairGeneral m op (.uri s) (.uri t) = pairSpec m op (.uri s) (.uri t) ∧
-    pairGeneral m op (.str s) (.ua t) = pairSpec m op (.str s) (.ua t) ∧
-    pairGeneral m op (.ua s) (.str t) = pairSpec m op (.ua s) (.str t) := by
-  refine ⟨?_, ?_, ?_, ?_, ?_, ?_⟩ <;> gp_simp <;>
-    (cases op <;> simp [six, Op.swap, strLtS, strEqS, strLt] <;> grind)
-
-theorem pg_ua_ua (m : Mode) (op : Op) (s t : Str) :
-    pairGeneral m op (.ua s) (.ua t) = pairSpec m op (.ua s) (.ua t) := by
-  gp_simp
-  rfl
-
-theorem strToBool_cases (s : Str) :
-    (strToBool s = .ok true ∧ castBool s = .ok true) ∨ (strToBool s = .ok false ∧ castBool s = .ok false) ∨
-    (strToBool s = .error .valueErr ∧ castBool s = .error .FORG0001) := by
-  unfold strToBool castBool
-  by_cases h1 : (strip s = sTrue || strip s = [49]) = true
-  · simp [h1]
-  · by_cases h2 : (strip s = sFalse || strip s = [48]) = true
-    · simp [h1, h2]
-    · simp [h1, h2]
-
-/-- untypedAtomic against boolean, either side -/
-theorem pg_ua_bool (m : Mode) (op : Op) (s : Str) (y : Bool) :
-    pairGeneral m op (.ua s) (.bool y) = pairSpec m op (.ua s) (.bool y) ∧
-    pairGeneral m op (.bool y) (.ua s) = pairSpec m op (.bool y) (.ua s) := by
-  rcases strToBool_cases s with ⟨h1, h2⟩ | ⟨h1, h2⟩ | ⟨h1, h2⟩ <;> constructor <;> gp_simp <;>
-    simp [h1, h2, Except.map, valueOp, numRank] <;> (cases op <;> cases y <;> decide +kernel)
-
-theorem strToUri_cases (s : Str) :
-    strToUri s = .error .unsupported ∨ (strToUri s = .ok (strip s) ∧ hasInnerWs s = false) := by
-  unfold strToUri
-  split
-  · exact Or.inl rfl
-  · rename_i h
-    simp only [Bool.or_eq_true, not_or, Bool.not_eq_true] at h
-    exact Or.inr ⟨rfl, h.1⟩
-
-/-- untypedAtomic against anyURI -/
-theorem pg_ua_uri (m : Mode) (op : Op) (s t : Str)
-    (h6 : pairGeneral m op (.ua s) (.uri t) ≠ .error .unsupported) :
-    pairGeneral m op (.ua s) (.uri t) = pairSpec m op (.ua s) (.uri t) := by
-  rcases strToUri_cases s with h | ⟨h, hw⟩
-  · exact absurd (by gp_simp; simp [h]) h6
-  · gp_simp
-    simp [h, hw, valueOp, numRank, strLtS, strEqS, strLt]
-    rfl
-
-theorem pg_uri_ua (m : Mode) (op : Op) (s t : Str) (h4 : trigUntyped op (.uri s) (.ua t) = false)
-    (h5 : pairSpec m op (.uri s) (.ua t) ≠ .error .unsupported) :
-    pairGeneral m op (.uri s) (.ua t) = pairSpec m op (.uri s) (.ua t) := by
-  simp [trigUntyped] at h4
-  by_cases hw : hasInnerWs t = true
-  · exact absurd (by gp_simp; simp [hw]) h5
-  · gp_simp
-    simp [hw, h4, valueOp, numRank, strLtS, strEqS, strLt]
-    rfl
-
-/-- untypedAtomic (left) against a date/time/duration: the cast fails with FORG0001 on both sides
-(strings of the fragment are never valid lexicals of those types) -/
-theorem pg_ua_temporal (m : Mode) (op : Op) (s : Str) (b : Atom) (hb : isTemporal b = true)
-    (h5 : pairSpec m op (.ua s) b ≠ .error .unsupported) :
-    pairGeneral m op (.ua s) b = pairSpec m op (.ua s) b := by
-  by_cases hn : notTemporalLexical s = true
-  · cases b <;> simp [isTemporal, Atom.isDT, Atom.isDur] at hb <;> gp_simp <;> simp [hn]
-  · cases b <;> simp [isTemporal, Atom.isDT, Atom.isDur] at hb <;>
-      exact absurd (by gp_simp; simp [hn]) h5
-
-/-- a date/time/duration (left) against untypedAtomic: `fromstring` of the untyped value -/
-theorem pg_temporal_ua (m : Mode) (op : Op) (s : Str) (a : Atom) (ha : isTemporal a = true)
-    (h5 : pairSpec m op a (.ua s) ≠ .error .unsupported) :
-    pairGeneral m op a (.ua s) = pairSpec m op a (.ua s) := by
-  by_cases hn : notTemporalLexical s = true
-  · cases a <;> simp [isTemporal, Atom.isDT, Atom.isDur] at ha <;> cases op <;> gp_simp <;> simp [hn, PyR.map]
-  · cases a <;> simp [isTemporal, Atom.isDT, Atom.isDur] at ha <;>
-      exact absurd (by gp_simp; simp [hn]) h5
-
-/-- two binaries of the same kind through the Python protocol (any fuel ≥ 2) -/
-theorem bin_protocol (m : Mode) (op : Op) (x y : List Nat) (f : Nat) :
-    liftPy (pyBinop m op (.hex x) (.hex y) (f + 2)) = valueOp (binOrdered m) op (.hex x) (.hex y) ∧
-    liftPy (pyBinop m op (.b64 x) (.b64 y) (f + 2)) = valueOp (binOrdered m) op (.b64 x) (.b64 y) := by
-  constructor <;> cases op <;> cases m <;>
-    simp [pyBinop, subclassFirst, dunder, liftPy, valueOp, numRank, Atom.isBin, Atom.binVal, binOrdered, isEqNe, bCmp, cmpBy,
-      bytesLt_eq_lex, octLt, six, Op.swap, PyR.map] <;> grind
-
-theorem chain_ne_notImpl (X Y fb : PyR) (hfb : fb ≠ .notImpl) :
-    (match X with
-     | .notImpl => (match Y with | .notImpl => fb | r => r)
-     | r => r) ≠ .notImpl := by
-  cases X <;> cases Y <;> simp [hfb]
-
-theorem pyBinop_ne_notImpl (m : Mode) (op : Op) (a b : Atom) (f : Nat) : pyBinop m op a b f ≠ .notImpl := by
-  cases f with
-  | zero => simp [pyBinop]
-  | succ f =>
-    simp only [pyBinop]
-    split <;> exact chain_ne_notImpl _ _ _ (by cases op <;> simp)
-
-def fallbackOf (op : Op) : PyR := match op with | .eq => .ok false | .ne => .ok true | _ => .typeErr
-
-/-- one step of `do_richcompare` when no subclass priority applies -/
-theorem pyBinop_step (m : Mode) (op : Op) (a b : Atom) (f : Nat) (h : subclassFirst a b = false) :
-    pyBinop m op a b (f + 1) =
-      match dunder m op a b f with
-      | .notImpl => (match dunder m op.swap b a f with | .notImpl => fallbackOf op | r => r)
-      | r => r := by
-  simp only [pyBinop, h, Bool.false_eq_true, if_false, fallbackOf]
-  rfl
-
-theorem strToHex_err {s : Str} {e : PyR} (h : strToHex s = .error e) : e = .unsupported ∨ e = .valueErr := by
-  unfold strToHex at h
-  split at h
-  · cases h; exact Or.inl rfl
-  · split at h
-    · cases h
-    · cases h; exact Or.inr rfl
-
-theorem strToB64_err {s : Str} {e : PyR} (h : strToB64 s = .error e) : e = .unsupported ∨ e = .valueErr := by
-  simp only [strToB64] at h
-  split at h
-  · cases h
-  · cases h; exact Or.inr rfl
-
-/-- the outer layer of the protocol when the left operand is untyped and the right one a binary -/
-theorem pyOp_ua_hex (m : Mode) (op : Op) (s : Str) (y : List Nat) :
-    pyOp m op (.ua s) (.hex y) =
-      match strToHex s with
-      | .ok x => pyBinop m op (.hex x) (.hex y) 6
-      | .error e => e := by
-  have h : dunder m op (.ua s) (.hex y) 7 =
-      match strToHex s with
-      | .ok x => pyBinop m op (.hex x) (.hex y) 6
-      | .error e => e := by rfl
-  show pyBinop m op (.ua s) (.hex y) (7 + 1) = _
-  rw [pyBinop_step m op _ _ 7 rfl, h]
-  cases hs : strToHex s with
-  | ok x =>
-    have := pyBinop_ne_notImpl m op (.hex x) (.hex y) 6
-    simp only
-    try (split <;> simp_all)
-  | error e =>
-    rcases strToHex_err hs with rfl | rfl <;> simp
-
-theorem pyOp_ua_b64 (m : Mode) (op : Op) (s : Str) (y : List Nat) :
-    pyOp m op (.ua s) (.b64 y) =
-      match strToB64 s with
-      | .ok x => pyBinop m op (.b64 x) (.b64 y) 6
-      | .error e => e := by
-  have h : dunder m op (.ua s) (.b64 y) 7 =
-      match strToB64 s with
-      | .ok x => pyBinop m op (.b64 x) (.b64 y) 6
-      | .error e => e := by rfl
-  show pyBinop m op (.ua s) (.b64 y) (7 + 1) = _
-  rw [pyBinop_step m op _ _ 7 rfl, h]
-  cases hs : strToB64 s with
-  | ok x =>
-    have := pyBinop_ne_notImpl m op (.b64 x) (.b64 y) 6
-    simp only
-    try (split <;> simp_all)
-  | error e =>
-    rcases strToB64_err hs with rfl | rfl <;> simp
-
-/-- binary (left) against untypedAtomic: `AbstractBinary.__op__` returns NotImplemented, the
-reflected UntypedAtomic method builds the binary from the string -/
-theorem pyOp_hex_ua (m : Mode) (op : Op) (s : Str) (x : List Nat) :
-    pyOp m op (.hex x) (.ua s) =
-      match strToHex s with
-      | .ok y => pyBinop m op.swap (.hex y) (.hex x) 6
-      | .error e => e := by
-  have h1 : dunder m op (.hex x) (.ua s) 7 = .notImpl := by
-    cases op <;> simp [dunder, Atom.isBin, PyR.map]
-  have h2 : dunder m op.swap (.ua s) (.hex x) 7 =
-      match strToHex s with
-      | .ok y => pyBinop m op.swap (.hex y) (.hex x) 6
-      | .error e => e := by rfl
-  show pyBinop m op (.hex x) (.ua s) (7 + 1) = _
-  rw [pyBinop_step m op _ _ 7 rfl, h1]
-  simp only [h2]
-  cases hs : strToHex s with
-  | ok y =>
-    have := pyBinop_ne_notImpl m op.swap (.hex y) (.hex x) 6
-    simp only
-    try (split <;> simp_all)
-  | error e =>
-    rcases strToHex_err hs with rfl | rfl <;> simp
-
-theorem pyOp_b64_ua (m : Mode) (op : Op) (s : Str) (x : List Nat) :
-    pyOp m op (.b64 x) (.ua s) =
-      match strToB64 s with
-      | .ok y => pyBinop m op.swap (.b64 y) (.b64 x) 6
-      | .error e => e := by
-  have h1 : dunder m op (.b64 x) (.ua s) 7 = .notImpl := by
-    cases op <;> simp [dunder, Atom.isBin, PyR.map]
-  have h2 : dunder m op.swap (.ua s) (.b64 x) 7 =
-      match strToB64 s with
-      | .ok y => pyBinop m op.swap (.b64 y) (.b64 x) 6
-      | .error e => e := by rfl
-  show pyBinop m op (.b64 x) (.ua s) (7 + 1) = _
-  rw [pyBinop_step m op _ _ 7 rfl, h1]
-  simp only [h2]
-  cases hs : strToB64 s with
-  | ok y =>
-    have := pyBinop_ne_notImpl m op.swap (.b64 y) (.b64 x) 6
-    simp only
-    try (split <;> simp_all)
-  | error e =>
-    rcases strToB64_err hs with rfl | rfl <;> simp
-
-/-- two QNames through the Python protocol (any fuel ≥ 2); the prefix plays no role -/
-theorem qn_protocol (m : Mode) (op : Op) (a p b c q d : Str) (f : Nat) :
-    liftPy (pyBinop m op (.qn a p b) (.qn c q d) (f + 2)) = valueOp (binOrdered m) op (.qn a [] b) (.qn c q d) := by
-  cases op <;> simp [pyBinop, subclassFirst, dunder, liftPy, valueOp, numRank, isEqNe, six, Op.swap, PyR.map] <;> grind
-
-theorem strToQName_err {s : Str} {e : PyR} (h : strToQName s = .error e) :
-    e = .unsupported ∨ e = .valueErr ∨ e = .exc .keyError := by
-  unfold strToQName at h
-  split at h <;> cases h <;> simp
-
-theorem pyOp_ua_qn (m : Mode) (op : Op) (s ns pre loc : Str) :
-    pyOp m op (.ua s) (.qn ns pre loc) =
-      match strToQName s with
-      | .ok (ns', _, loc') => pyBinop m op (.qn ns' [] loc') (.qn ns [] loc) 6
-      | .error e => e := by
-  have h : dunder m op (.ua s) (.qn ns pre loc) 7 =
-      match strToQName s with
-      | .ok (ns', _, loc') => pyBinop m op (.qn ns' [] loc') (.qn ns [] loc) 6
-      | .error e => e := by rfl
-  show pyBinop m op (.ua s) (.qn ns pre loc) (7 + 1) = _
-  rw [pyBinop_step m op _ _ 7 rfl, h]
-  cases hs : strToQName s with
-  | ok x =>
-    obtain ⟨a, b, c⟩ := x
-    have := pyBinop_ne_notImpl m op (.qn a [] c) (.qn ns [] loc) 6
-    simp only
-    try (split <;> simp_all)
-  | error e =>
-    rcases strToQName_err hs with rfl | rfl | rfl <;> simp
-
-theorem valueOp_bin_swap (bo : Bool) (op : Op) (x y : List Nat) :
-    valueOp bo op.swap (.hex y) (.hex x) = valueOp bo op (.hex x) (.hex y) ∧
-    valueOp bo op.swap (.b64 y) (.b64 x) = valueOp bo op (.b64 x) (.b64 y) := by
-  constructor <;> cases op <;> cases bo <;> simp [valueOp, numRank, isEqNe, Op.swap, six] <;> grind
-
-theorem pairGeneral_ua_left (m : Mode) (op : Op) (s : Str) (b : Atom) (hb : isUA b = false) :
-    pairGeneral m op (.ua s) b = liftPy (pyOp m op (.ua s) b) := by
-  cases b <;> simp_all [pairGeneral, iterCheck, iterMatch, categoryOK, isUA]
-
-/-- untypedAtomic (left) against QName, XPath 3.1: the untyped value is cast to a QName in no namespace -/
-theorem pg_ua_qn (op : Op) (s ns pre loc : Str)
-    (h5 : pairSpec .v31 op (.ua s) (.qn ns pre loc) ≠ .error .unsupported) :
-    pairGeneral .v31 op (.ua s) (.qn ns pre loc) = pairSpec .v31 op (.ua s) (.qn ns pre loc) := by
-  rw [pairGeneral_ua_left _ _ _ _ rfl, pyOp_ua_qn]
-  revert h5
-  simp only [pairSpec, castThen, castUntyped, strToQName, if_true]
-  cases ncName s with
-  | valid v =>
-    intro _
-    have := qn_protocol .v31 op [] [] v ns [] loc 4
-    simp only [this]
-    cases op <;> simp [valueOp, numRank, isEqNe]
-  | invalid => intro _; simp [liftPy]
-  | prefixed => intro h; simp at h
-  | unsupported => intro h; simp at h
-
-/-- untypedAtomic against hexBinary / base64Binary, either side -/
-theorem pg_ua_hex (m : Mode) (op : Op) (s : Str) (y : List Nat)
-    (h5 : pairSpec m op (.ua s) (.hex y) ≠ .error .unsupported) :
-    pairGeneral m op (.ua s) (.hex y) = pairSpec m op (.ua s) (.hex y) := by
-  rw [pairGeneral_ua_left _ _ _ _ rfl, pyOp_ua_hex]
-  by_cases hw : hasInnerWs s = true
-  · exact absurd (by simp [pairSpec, castUntyped, hw]) h5
-  · cases hd : hexDecode (strip s) with
-    | none => simp [strToHex, hw, hd, liftPy, pairSpec, castUntyped]
-    | some b => simp [strToHex, hw, hd, pairSpec, castUntyped, (bin_protocol m op b y 4).1]
-
-theorem pg_hex_ua (m : Mode) (op : Op) (s : Str) (x : List Nat)
-    (h5 : pairSpec m op (.hex x) (.ua s) ≠ .error .unsupported) :
-    pairGeneral m op (.hex x) (.ua s) = pairSpec m op (.hex x) (.ua s) := by
-  have : pairGeneral m op (.hex x) (.ua s) = liftPy (pyOp m op (.hex x) (.ua s)) := by
-    simp [pairGeneral, iterCheck, iterMatch, categoryOK, Atom.isDur]
-  rw [this, pyOp_hex_ua]
-  by_cases hw : hasInnerWs s = true
-  · exact absurd (by simp [pairSpec, castUntyped, hw]) h5
-  · cases hd : hexDecode (strip s) with
-    | none => simp [strToHex, hw, hd, liftPy, pairSpec, castUntyped]
-    | some b =>
-      simp [strToHex, hw, hd, pairSpec, castUntyped, (bin_protocol m op.swap b x 4).1, (valueOp_bin_swap _ op x b).1]
-
-theorem b64_cases (s : Str) :
-    (∃ x, strToB64 s = .ok x ∧ castUntyped s (.b64 []) = .ok (.b64 x)) ∨
-    (strToB64 s = .error .valueErr ∧ castUntyped s (.b64 []) = .error .FORG0001) := by
-  simp only [strToB64, castUntyped]
-  cases b64Decode (s.filter fun c => !isWs c) with
-  | some b => exact Or.inl ⟨b, rfl, rfl⟩
-  | none => exact Or.inr ⟨rfl, rfl⟩
-
-theorem castUntyped_b64 (s : Str) (y : List Nat) : castUntyped s (.b64 y) = castUntyped s (.b64 []) := rfl
-
-theorem pg_ua_b64 (m : Mode) (op : Op) (s : Str) (y : List Nat)
-    (h5 : pairSpec m op (.ua s) (.b64 y) ≠ .error .unsupported) :
-    pairGeneral m op (.ua s) (.b64 y) = pairSpec m op (.ua s) (.b64 y) := by
-  rw [pairGeneral_ua_left _ _ _ _ rfl, pyOp_ua_b64]
-  rcases b64_cases s with ⟨x, h1, h2⟩ | ⟨h1, h2⟩
-  · simp [h1, pairSpec, castUntyped_b64 s y, h2, (bin_protocol m op x y 4).2]
-  · simp [h1, pairSpec, castUntyped_b64 s y, h2, liftPy]
-
-theorem pg_b64_ua (m : Mode) (op : Op) (s : Str) (x : List Nat)
-    (h5 : pairSpec m op (.b64 x) (.ua s) ≠ .error .unsupported) :
-    pairGeneral m op (.b64 x) (.ua s) = pairSpec m op (.b64 x) (.ua s) := by
-  have : pairGeneral m op (.b64 x) (.ua s) = liftPy (pyOp m op (.b64 x) (.ua s)) := by
-    simp [pairGeneral, iterCheck, iterMatch, categoryOK, Atom.isDur]
-  rw [this, pyOp_b64_ua]
-  rcases b64_cases s with ⟨y, h1, h2⟩ | ⟨h1, h2⟩
-  · simp [h1, pairSpec, castUntyped_b64 s x, h2, (bin_protocol m op.swap y x 4).2, (valueOp_bin_swap _ op x y).2]
-  · simp [h1, pairSpec, castUntyped_b64 s x, h2, liftPy]
-
-set_option maxHeartbeats 1000000 in
-/-- numeric against numeric -/
-theorem pg_numeric (m : Mode) (op : Op) (a b : Atom) (i j : Nat)
-    (hi : numRank a = some i) (hj : numRank b = some j)
-    (h1 : trigTol false op a b = false) (h2 : trigPromotion false a b = false) :
-    pairGeneral m op a b = pairSpec m op a b := by
-  cases a <;> simp [numRank] at hi <;> cases b <;> simp [numRank] at hj <;>
-    simp [trigPromotion, numRank, exactVal, castNum] at h2 <;>
-    simp [trigTol] at h1 <;> gp_simp
-  all_goals first
-    | (simp [h2.1, h2.2, six_swap]; done)
-    | (simp [h2, six_swap]; done)
-    | (cases op <;> simp_all [Op.isEqNe, numericEqual_of_not_tol, numericNotEqual_of_not_tol, six])
-
-macro "lenient_contra" h3:ident : tactic => `(tactic|
-  (simp [trigLenient, specIncomparable, iterAccepts, iterCheck, iterMatch, categoryOK, cmpCategory, kindName, valueOp, numRank, isUA, isStrLike3, isStr, isQN,
-        isUri, isInteger, isBoolA, binOrdered, isEqNe, Atom.isDur] at $h3:ident; done))
-
-set_option maxHeartbeats 4000000 in
 theorem pairGeneral_conforms (m : Mode) (op : Op) (a b : Atom)
     (h1 : trigTol false op a b = false) (h2 : trigPromotion false a b = false)
     (h4 : trigUntyped op a b = false)
@@ -411,83 +20,22 @@ theorem pairGeneral_conforms (m : Mode) (op : Op) (a b : Atom)
     (h8 : dtConsistent a b = true) (h9 : trigUntypedQN m a b = false) :
     pairGeneral m op a b = pairSpec m op a b := by
   cases hi : numRank a with
-  | some i =>
-    cases hj : numRank b with
-    | some j => exact pg_numeric m op a b i j hi hj h1 h2
-    | none =>
-      cases a <;> simp [numRank] at hi <;> cases b <;> simp [numRank] at hj <;>
-        first
-        | (gp_simp; done)
-        | (simp [trigUntyped] at h4; done)
-        | skip
-      case int.ua v s =>
-        simp [trigPromotion, numRank, exactVal, castNum] at h2
-        exact pg_num_ua m op s _ (.fin v) (Or.inl ⟨v, rfl, rfl, h2⟩) h5
-      case dbl.ua d s => exact pg_num_ua m op s _ d (Or.inr (Or.inl rfl)) h5
-      case flt.ua d s => exact pg_num_ua m op s _ d (Or.inr (Or.inr (Or.inr rfl))) h5
-      case dec.ua q s => exact pg_num_ua m op s _ .nan (Or.inr (Or.inr (Or.inl ⟨q, rfl⟩))) h5
+  | some i => exact pairGeneral_conforms_GN m op a b i hi h1 h2 h4 h5 h6 h8 h9
   | none =>
-    cases a <;> simp [numRank] at hi <;> cases b <;>
-      first
-      | (gp_simp; done)
-      | (simp [trigUntyped, isTemporal, Atom.isDT, Atom.isDur] at h4; done)
-      | (simp [dtConsistent, Atom.isDT, Atom.dt] at h8; gp_simp; simp [dtCompare_eq_six _ _ _ h8]; done)
-      | skip
-    case str.str s t => exact (pg_str_str m op s t).1
-    case str.uri s t => exact (pg_str_str m op s t).2.1
-    case uri.str s t => exact (pg_str_str m op s t).2.2.1
-    case uri.uri s t => exact (pg_str_str m op s t).2.2.2.1
-    case str.ua s t => exact (pg_str_str m op s t).2.2.2.2.1
-    case ua.str s t => exact (pg_str_str m op s t).2.2.2.2.2
-    case ua.ua s t => exact pg_ua_ua m op s t
-    case ua.int s v =>
-      simp [trigPromotion, numRank, exactVal, castNum] at h2
-      exact pg_ua_num m op s _ (.fin v) (Or.inl ⟨v, rfl, rfl, h2⟩) h5
-    case ua.dbl s d => exact pg_ua_num m op s _ d (Or.inr (Or.inl rfl)) h5
-    case ua.flt s d => exact pg_ua_num m op s _ d (Or.inr (Or.inr (Or.inr rfl))) h5
-    case ua.dec s q => exact pg_ua_num m op s _ .nan (Or.inr (Or.inr (Or.inl ⟨q, rfl⟩))) h5
-    case ua.bool s y => exact (pg_ua_bool m op s y).1
-    case bool.ua y s => exact (pg_ua_bool m op s y).2
-    case ua.uri s t => exact pg_ua_uri m op s t h6
-    case uri.ua s t => exact pg_uri_ua m op s t h4 h5
-    case ua.qn s ns pre loc =>
-      have hm : m = .v31 := by simpa [trigUntypedQN] using h9
-      subst hm
-      exact pg_ua_qn op s ns pre loc h5
-    case qn.ua => simp [trigUntypedQN] at h9
-    case ua.date => exact pg_ua_temporal m op _ _ rfl h5
-    case ua.dtm => exact pg_ua_temporal m op _ _ rfl h5
-    case ua.time => exact pg_ua_temporal m op _ _ rfl h5
-    case ua.dur => exact pg_ua_temporal m op _ _ rfl h5
-    case ua.ymd => exact pg_ua_temporal m op _ _ rfl h5
-    case ua.dtd => exact pg_ua_temporal m op _ _ rfl h5
-    case ua.hex s y => exact pg_ua_hex m op s y h5
-    case ua.b64 s y => exact pg_ua_b64 m op s y h5
-    case date.ua => exact pg_temporal_ua m op _ _ rfl h5
-    case dtm.ua => exact pg_temporal_ua m op _ _ rfl h5
-    case time.ua => exact pg_temporal_ua m op _ _ rfl h5
-    case dur.ua => exact pg_temporal_ua m op _ _ rfl h5
-    case ymd.ua => exact pg_temporal_ua m op _ _ rfl h5
-    case dtd.ua => exact pg_temporal_ua m op _ _ rfl h5
-    case hex.ua x s => exact pg_hex_ua m op s x h5
-    case b64.ua x s => exact pg_b64_ua m op s x h5
-    case hex.hex x y =>
-      have : pairGeneral m op (.hex x) (.hex y) = liftPy (pyBinop m op (.hex x) (.hex y) (6 + 2)) := by
-        simp [pairGeneral, iterCheck, iterMatch, categoryOK, cmpCategory, kindName, Atom.isDur, pyOp]
-      rw [this, (bin_protocol m op x y 6).1]; rfl
-    case b64.b64 x y =>
-      have : pairGeneral m op (.b64 x) (.b64 y) = liftPy (pyBinop m op (.b64 x) (.b64 y) (6 + 2)) := by
-        simp [pairGeneral, iterCheck, iterMatch, categoryOK, cmpCategory, kindName, Atom.isDur, pyOp]
-      rw [this, (bin_protocol m op x y 6).2]; rfl
-    case bool.bool x y => cases op <;> gp_simp <;> (cases x <;> cases y <;> decide +kernel)
-    all_goals
-      cases op <;> gp_simp <;>
-        (try simp [six, durCmp4_dtd, durCmp4_ymd, iCmp, cmpBy, PyR.map, Op.swap]) <;>
-        first
-        | done
-        | grind
-        | (rename_i s t; by_cases h : s = t <;> simp [h] <;> grind)
-
+    cases a <;> simp [numRank] at hi
+    case str => exact pairGeneral_conforms_G1 m op _ b rfl h1 h2 h4 h5 h6 h8 h9
+    case bool => exact pairGeneral_conforms_G1 m op _ b rfl h1 h2 h4 h5 h6 h8 h9
+    case uri => exact pairGeneral_conforms_G1 m op _ b rfl h1 h2 h4 h5 h6 h8 h9
+    case qn => exact pairGeneral_conforms_G1 m op _ b rfl h1 h2 h4 h5 h6 h8 h9
+    case ua => exact pairGeneral_conforms_GU m op _ b rfl h1 h2 h4 h5 h6 h8 h9
+    case date => exact pairGeneral_conforms_G2 m op _ b rfl h1 h2 h4 h5 h6 h8 h9
+    case dtm => exact pairGeneral_conforms_G2 m op _ b rfl h1 h2 h4 h5 h6 h8 h9
+    case time => exact pairGeneral_conforms_G2 m op _ b rfl h1 h2 h4 h5 h6 h8 h9
+    case dur => exact pairGeneral_conforms_G3 m op _ b rfl h1 h2 h4 h5 h6 h8 h9
+    case ymd => exact pairGeneral_conforms_G3 m op _ b rfl h1 h2 h4 h5 h6 h8 h9
+    case dtd => exact pairGeneral_conforms_G3 m op _ b rfl h1 h2 h4 h5 h6 h8 h9
+    case hex => exact pairGeneral_conforms_G4 m op _ b rfl h1 h2 h4 h5 h6 h8 h9
+    case b64 => exact pairGeneral_conforms_G4 m op _ b rfl h1 h2 h4 h5 h6 h8 h9
 
 /-- all pair-level finding triggers of a general comparison are off for the pair, and the pair lies
 in the lexical fragment on which model and specification are defined -/
